@@ -115,7 +115,18 @@ class Check(PropertyCheck):
         # (graphs pruned by their owner before the hand-over are left to C12/C18: C17 speaks of the graphs the builders yield - in a
         #  pruned graph `remove_node`'s own sweep of isolated nodes can take an unscheduled operation's node, by design)
         scribble = False
-        if rng.random() < 0.1:
+        mid_attach = False
+        if rng.random() < 0.08 and not any(l.startswith(("fobs", "disp")) for l in lines):
+            # the updater is attached to a dispatcher that already has a history (and nobody subscribed yet): what was completed before is
+            # not back-filled, but from here on nothing that still has unscheduled operations may disappear
+            for _ in range(rng.randint(1, max(1, gen.num_ops(jobs) - 2))):
+                if tr.done():
+                    break
+                j, p, m = gen.gen_valid_request(rng, tr)
+                tr.take(j)
+                lines.append(f"disp {j} {p} {m}")
+            mid_attach = True
+        elif rng.random() < 0.1:
             # a composite over the completion flags exists before the updater is attached (the updater then shares that observer),
             # and a third party keeps writing into the matrices the composite hands out
             lines = [l for l in lines if not l.startswith(("fobs", "funsub", "disp", "reset", "fsnap"))]     # (this observer comes first: id 0)
@@ -139,7 +150,9 @@ class Check(PropertyCheck):
             if ep < n_eps - 1:
                 lines += ["reset", "fsnap"]
                 tr.reset()
-        meta = {"family": family, "builder": b, "rm_machine": rm, "rm_job": rj, "flexible": gen.is_flexible(jobs),
+        if mid_attach:
+            n_eps = 1
+        meta = {"family": family, "builder": b, "rm_machine": rm, "rm_job": rj, "flexible": gen.is_flexible(jobs), "mid_attach": mid_attach,
                 "filter": "none" if f is None else "+".join(f) or "empty-composite", "accepted": n_acc, "episodes": n_eps,
                 "filter_style": rng.choice(["callable", "enum", "str"])}
         return Scenario(lines, meta)
@@ -261,7 +274,7 @@ class Check(PropertyCheck):
             elif node.node_type == NT.JOB:
                 if any(o.operation_id not in scheduled for o in impl.instance.jobs[node.job_id]):
                     res.append(("job-early", f"job node {node.job_id} removed while it has unscheduled operations"))
-        if dispatched:
+        if dispatched and not scenario.meta.get("mid_attach"):
             for oid in completed:
                 if not g.removed_nodes[oid]:
                     res.append(("completed-kept", f"node of completed operation {oid} is still in the graph"))
@@ -279,7 +292,7 @@ class Check(PropertyCheck):
         M = impl.instance.num_machines
         every_machine_used = all(any(m in op.machines for job in impl.instance.jobs for op in job) for m in range(M))
         if d.schedule.is_complete() and upd.remove_completed_machine_nodes and upd.remove_completed_job_nodes \
-                and every_machine_used and not all(g.removed_nodes):
+                and every_machine_used and not all(g.removed_nodes) and not scenario.meta.get("mid_attach"):
             left = [i for i, r in enumerate(g.removed_nodes) if not r]
             res.append(("not-all-removed", f"schedule complete but nodes {left} were never removed"))
         return res
